@@ -149,6 +149,13 @@ func (k Keeper) GetCurrentQueryInCycleList(ctx context.Context) ([]byte, error) 
 	if err != nil {
 		return nil, err
 	}
+	if len(q) == 0 {
+		return nil, errors.New("cycle list is empty")
+	}
+	// the list may have been replaced by a shorter one since the sequencer last moved
+	if idx >= uint64(len(q)) {
+		idx = 0
+	}
 
 	return q[idx], nil
 }
